@@ -13,7 +13,7 @@ ID = "C22"
 LEVEL = "fault_enumeration"
 RULE = (
     "Workloads = small generated program families (2-4 tasks: lazy call chains, two callees, catch "
-    "of a raising child, arithmetic leaves; run with execution tags) executed by the real Scheduler "
+    "of a raising child, arithmetic leaves, some tasks with prov=False or check_valid='shallow'; run with execution tags) executed by the real Scheduler "
     "on a file-backed SQLite backend under the harness executor. For each workload the backend's "
     "session.commit is wrapped, the N commit points of the fault-free run are counted, and the run "
     "is repeated once per (commit point k, fault kind) for ALL k in 1..N and kinds {die before the "
@@ -45,6 +45,13 @@ FIXED = [
     {"name": "catch", "init": [{"k": "call2", "callees": [1, 2]}, {"k": "catch", "callee": 2, "add": 1},
                                {"k": "raise_if", "mod": 2, "add": 5}, {"k": "parse", "add": 0}],
      "arg": 1, "edit": [2, {"k": "raise_if", "mod": 3, "add": 5}]},
+    # a shallow-validity call over children that record no provenance: their Task values are written
+    # by the parent's record_call_node, which therefore commits several times
+    {"name": "noprov", "init": [{"k": "call", "callee": 1, "shift": 0, "add": 1},
+                                {"k": "call2", "callees": [2, 3], "opts": {"check_valid": "shallow"}},
+                                {"k": "arith", "mul": 2, "add": 1, "opts": {"prov": False}},
+                                {"k": "arith", "mul": 3, "add": 0, "opts": {"prov": False}}, {"k": "parse", "add": 0}],
+     "arg": 1, "edit": [3, {"k": "arith", "mul": 5, "add": 0, "opts": {"prov": False}}]},
 ]
 
 
@@ -64,6 +71,10 @@ def workloads(draw):
             init.append(v)
     if init[0]["k"] in ("arith", "raise_if") and n > 3:
         init[0] = {"k": "call", "callee": 1, "shift": 0, "add": 1}
+    for i in range(1, n - 1):
+        o = draw(st.sampled_from([None, None, None, None, {"prov": False}, {"check_valid": "shallow"}]))
+        if o:
+            init[i]["opts"] = dict(o)
     # the edited task is never beneath a catch(): a recovered catch is replayed after such an edit
     # whatever happened to the recording (C02's open finding catch-recovery-replayed:subtree-edit)
     fam = codefam.Family(n)
@@ -76,6 +87,8 @@ def workloads(draw):
     ev = dict(draw(c02.variant_strategy(ei, n, False)))
     if ev["k"] == "readfile":
         ev = {"k": "arith", "mul": 2, "add": 7}
+    if init[ei].get("opts"):
+        ev["opts"] = dict(init[ei]["opts"])
     return {"name": "gen", "init": init, "arg": draw(st.integers(0, 3)), "edit": [ei, ev]}
 
 
